@@ -238,9 +238,9 @@ pub fn literal_soup(r: &mut Rng) -> String {
 /// restart inside a later condition, blocks around groups, apply forms inside nested expressions)
 pub const FOCUS: [(&str, &[&str]); 4] = [
     ("conditionals", &["5", "x", "?>", "!>", "|>", "(", ")", "^~", ",", "&&"]),
-    ("blocks-and-lists", &["5", "x", "[", "]", "(", ")", ",", "+", "--", "~~"]),
+    ("blocks-and-lists", &["5", "x", "[", "]", "(", ")", ",", "+", "--", "~~", ";"]),
     ("expressions-and-apply", &["5", "$", "{", "}", "<~", "~>", "~~", "^~", "?>", ";"]),
-    ("separators", &["5", "x", ";", "\n\n", ";;", "(", ")", "{", "}", ","]),
+    ("separators", &["5", "x", ";", "\n\n", ";;", "(", ")", "{", "}", ",", "[", "]"]),
 ];
 
 pub fn focus_count(len: usize) -> u64 {
